@@ -24,6 +24,13 @@ func c07CloseRoleUnits(m *pbfModel) map[*unit]bool {
 		}
 		return false
 	})
+	// the per-call-site copies of shared helpers called from those units
+	m.chanOps()
+	for k, c := range m.ctxUnits {
+		if out[k[1]] {
+			out[c] = true
+		}
+	}
 	return out
 }
 
